@@ -36,12 +36,38 @@ pub struct RObs {
 
 /// caller pattern: one byte taken with read() into a vector, the rest appended to the same vector with read_to_end
 pub const P_PREFIX_THEN_READ_TO_END: usize = usize::MAX - 1;
+/// caller pattern: read_vectored into two 8-byte slices
+pub const P_READ_VECTORED: usize = usize::MAX - 2;
 
 /// Caller-side reading pattern. bufsize 0 = read_to_end.
 fn read_entry<R: Read>(f: &mut R, bufsize: usize, zero: bool) -> (Result<Vec<u8>, String>, bool) {
     let mut out = vec![];
     let mut calls = 0u32;
-    let res = if bufsize == P_PREFIX_THEN_READ_TO_END {
+    let res = if bufsize == P_READ_VECTORED {
+        // scatter reads into two 8-byte slices; a short count says how far the slices were filled, in order
+        let (mut a, mut b) = ([0u8; 8], [0u8; 8]);
+        loop {
+            if zero && calls % 2 == 0 {
+                let _ = f.read(&mut []);
+            }
+            calls += 1;
+            match f.read_vectored(&mut [std::io::IoSliceMut::new(&mut a), std::io::IoSliceMut::new(&mut b)]) {
+                Ok(0) => break Ok(()),
+                Ok(n) if n > 16 => break Err(format!("read_vectored returned {n} for 16 bytes of buffers")),
+                Ok(n) => {
+                    out.extend_from_slice(&a[..n.min(8)]);
+                    if n > 8 {
+                        out.extend_from_slice(&b[..n - 8]);
+                    }
+                }
+                Err(e) if e.kind() == std::io::ErrorKind::Interrupted => continue,
+                Err(e) => break Err(e.to_string()),
+            }
+            if out.len() > 1 << 24 {
+                break Err("<runaway>".into());
+            }
+        }
+    } else if bufsize == P_PREFIX_THEN_READ_TO_END {
         out.push(0u8);
         loop {
             match f.read(&mut out[..1]) {
@@ -309,6 +335,8 @@ pub fn scenarios(seed: u64, big: usize) -> Vec<Scn> {
 fn bufname(b: usize) -> String {
     if b == P_PREFIX_THEN_READ_TO_END {
         "read(1) then read_to_end into the same vector".into()
+    } else if b == P_READ_VECTORED {
+        "read_vectored into two 8-byte slices".into()
     } else if b == 0 {
         "read_to_end".into()
     } else {
@@ -628,12 +656,12 @@ pub fn run(args: &Args) -> i32 {
     BIG.store(big, std::sync::atomic::Ordering::Relaxed);
     let scns = scenarios(seed, big);
     let chunks: Vec<usize> = (1..=17).chain([4095, 4096, 4097]).collect();
-    let cbufs_all = [1usize, 2, 3, 7, 64, 4096, 0, P_PREFIX_THEN_READ_TO_END];
-    let cbufs_cut = [1usize, 7, 0];
+    let cbufs_all = [1usize, 2, 3, 7, 64, 4096, 0, P_PREFIX_THEN_READ_TO_END, P_READ_VECTORED];
+    let cbufs_cut = [1usize, 7, 0, P_READ_VECTORED];
     ctx.rule = format!(
         "E-DEV over fragmentation schedules, differential against the 0-deviation run (which is itself required to return the written content). Reader: 7 archives \
          (stored+deflated, bzip2+zstd, ZipCrypto x2, AE-1, AE-2, prefixed+ZIP64), entries of 40 and {big} bytes; seekable route for all, streaming route for the two plain ones; plus ~45 DAMAGED variants of them (one bit in an entry's data, recorded CRC or authentication code) whose reads must end in an error under every schedule, exactly as without fragmentation. \
-         Deviations: every uniform chunk limit in 1..=17 and {{4095,4096,4097}} and std BufReader capacities {{1,7,64}} x caller buffers {{1,2,3,7,64,4096,read_to_end, read(1)+read_to_end into one vector}} x empty reads {{no,yes}}; \
+         Deviations: every uniform chunk limit in 1..=17 and {{4095,4096,4097}} and std BufReader capacities {{1,7,64}} x caller buffers {{1,2,3,7,64,4096,read_to_end, read(1)+read_to_end into one vector, read_vectored into two slices}} x empty reads {{no,yes}}; \
          a retryable ErrorKind::Interrupted at every read call (plain and with 5-byte underlying reads; callers retry as std does), and at every write call on the writer side; ONE cut at EVERY byte position of every archive x caller buffers {{1,7,read_to_end}}; all PAIRS of cut positions (bound 2) on a 40+60-byte archive. After EOF three more reads must return 0. Streaming route also with every entry released after 0/1/10/41 bytes (the reader skips the rest) under 9 chunk limits, 3 BufReader capacities and one cut at every (quick: every 5th) position. \
          Writer: 12 programs; sink accepting at most c bytes per write for the same c set; one short write at every write-call index with 1, n/2, n-1 bytes accepted: sink bytes must be identical; \
          zero-length reads on a handle before it is raw-copied change nothing; raw-copy sources delivering 1..17, 33, 100, 1000, 4095..4097, 65535, 65536 bytes per read: sink bytes identical; caller splitting a 700-byte content at every position and in uniform pieces 1..17: archive must decode to the same entries. distinct_nontrivial = distinct (scenario, route, schedule, caller pattern) tuples (counted; never repeated)."
